@@ -227,6 +227,36 @@ impl Monitor for C15 {
                 }
             }
         }
+        // a group that has just been brought up to date knows the global pause exactly: from the
+        // instant the pause it was told about runs out, it may not refuse users - whatever it had
+        // cached before (a cache may lag, it may not remember a longer pause than it was told)
+        if s.ok() {
+            let states = s.states();
+            for (i, ix) in s.tx.ixs.iter().enumerate().filter(|(_, x)| x.program_id == crate::rt::marginfi_id() && x.tag == "propagate_fee_state") {
+                let Some(gk) = ix.accounts.get(1).map(|m| m.pubkey) else { continue };
+                // the global state as it was when this group was told (a later instruction of the
+                // same transaction may change it again); skip if the group is told again later
+                if s.tx.ixs.iter().skip(i + 1).any(|x| x.tag == "propagate_fee_state" && x.accounts.get(1).map(|m| m.pubkey) == Some(gk)) {
+                    continue;
+                }
+                let Some(fs) = states.get(i + 1).and_then(|st| model::fee_state_of(st)) else { continue };
+                let told_until = if fs.panic_state.pause_flags & 1 != 0 { fs.panic_state.pause_start_timestamp + 1800 } else { now };
+                let Some(tx) = canary_deposit(s.post, &gk) else { continue };
+                let t = told_until.max(now);
+                if t - now > 7200 {
+                    continue;
+                }
+                let mut ck = s.clock;
+                ck.slot += ((t - now) as u64) * 2;
+                ck.unix_timestamp = t;
+                self.cov.probe("canary_after_propagation_at_the_told_expiry");
+                let (o, _) = s.exec.execute(s.post, ck, &tx);
+                if o.code() == Some(codes::PROTOCOL_PAUSED) {
+                    out.push(viol("C15", "user_still_blocked_after_pause_ran_out", "deposit",
+                        format!("group {gk}: brought up to date at {now} with a pause running until {told_until}, still refuses users at {t}"), idx));
+                }
+            }
+        }
         self.steps += 1;
         let pause_related = pause_ix.is_some() || s.tx.ixs.iter().any(|x| x.tag == "propagate_fee_state");
         if !(pause_related || self.steps % 64 == 0) {
